@@ -18,7 +18,7 @@ RULE = ('Hypothesis-generated resource trees (<= 20 nodes, depth <= 4, handles /
         'loaded resource / a mirroring snapshot, get yields the identical handle, absent near-miss names raise; '
         'setattr/delattr on every snapshot node (existing, new, non-identifier names) must raise and the whole '
         'mirror check must pass again afterwards. '
-        'One node kind registers an already registered handle object under a second name, in the same map or in another one (an alias): every name denotes it, in the map and in the snapshot. In ~13% of the cases the root level gets 40-260 further handles (the first and the last of them shadowing an older one). '
+        'One node kind mounts a sub-map that is already part of the tree a second time (another name, another map; never below itself). One node kind registers an already registered handle object under a second name, in the same map or in another one (an alias): every name denotes it, in the map and in the snapshot. In ~13% of the cases the root level gets 40-260 further handles (the first and the last of them shadowing an older one). '
         ''
         'After the source map was changed (names changing kind, composite-key insertions below existing sub-maps, clear) a SECOND snapshot is taken and must mirror the map as it is then. Before the mutation attempts every resource is unloaded: a rejected mutation must not load anything. '
         'Non-trivial = identifier and non-identifier names side by '
@@ -56,11 +56,11 @@ class UH(desper.Handle):
 
 
 def decode_node(p):
-    return {'parent': p % 8, 'name': p // 8 % len(NAMES), 'kind': ('h', 'h', 'h', 'm', 'm', 'layered', 'alias')[p // (8 * len(NAMES)) % 7]}
+    return {'parent': p % 8, 'name': p // 8 % len(NAMES), 'kind': ('h', 'h', 'h', 'm', 'm', 'layered', 'alias', 'mount')[p // (8 * len(NAMES)) % 8]}
 
 
 def strategy():
-    node = worldops.packed(8 * len(NAMES) * 7).map(decode_node)
+    node = worldops.packed(8 * len(NAMES) * 8).map(decode_node)
     # amp: 0, or the number of further handles the root level gets (wide levels, one of the names layered)
     return st.fixed_dictionaries({'nodes': st.lists(node, min_size=1, max_size=20),
                                   'amp': worldops.size_amp(none=40, sizes=(40, 64, 65, 66, 130, 260))})
@@ -90,6 +90,15 @@ def build(case, facts):
         elif nd['kind'] == 'h':
             made.append(UH())
             parent[name] = made[-1]
+        elif nd['kind'] == 'mount':
+            # a sub-map that is already part of the tree is mounted a second time, under another name or in another
+            # map (shared content such as `common`), never below itself: still a finite tree of paths
+            def below(m, target):
+                return m is target or any(below(x, target) for x in m.maps.values())
+            cands = [m for (m, d) in maps[1:] if not below(m, parent) and d + depth + 1 <= 4]
+            if cands:
+                parent[name] = cands[(nd['parent'] + nd['name']) % len(cands)]
+                facts['sub_map_mounted_at_two_places'] += 1
         elif nd['kind'] == 'alias':
             # one handle object registered under a second name (an alias such as default_font), in the same map or
             # in another one: every name it is registered under denotes it, in the map and in the snapshot
